@@ -97,6 +97,7 @@ def content(p):
             {k: cv(v) for k, v in p.variables.items()})
 
 
+@common.guarded("C04")
 def judge(src, vv, expect_params):
     H = header_for(src)
     st, t = common.loads(H + src)
